@@ -67,8 +67,10 @@ ASSUMPTIONS = [
 # ------------------------------------------------------------------------------------------------
 # frozen tables
 # ------------------------------------------------------------------------------------------------
+# accepted without the membership test: names containing the given constant (identified by class and constant, whatever the
+# spelling / polarity of the test)
 VALIDATOR_SHORTCUTS = {
-    ("JuliaBackend", "'julia' in solver"): "any 'julia*' name is dispatched to DifferentialEquations.jl by the same test in JuliaBackend._solve",
+    ("JuliaBackend", "julia"): "any 'julia*' name is dispatched to DifferentialEquations.jl by the same test in JuliaBackend._solve",
 }
 # get_nodes look-ups whose empty result must raise (outputs), others may warn
 R4_MUST_RAISE = {
@@ -333,6 +335,92 @@ def find_path(cfg, starts, is_goal: Callable, avoid: Callable = None, env: dict 
     return None
 
 
+def module_consts(ctx, f) -> dict:
+    """Module-level constants a function body may refer to: names bound exactly once at module level to a literal (string, number,
+    tuple/list/set of literals) that the function neither binds nor receives as a parameter.  A guard may test membership in such a
+    hoisted table instead of an inline literal."""
+    out = {}
+    rd = ctx.rd(f)
+    for nm, defs in f.module.assigns.items():
+        if len(defs) != 1 or rd.is_local(nm) or nm in f.params:
+            continue
+        d = defs[0]
+        val = d.value if isinstance(d, (ast.Assign, ast.AnnAssign)) else None
+        if val is None or (isinstance(d, ast.Assign) and not (len(d.targets) == 1 and isinstance(d.targets[0], ast.Name))):
+            continue
+        v = ev(val, {})
+        if v is not UNK and not isinstance(v, Len):
+            out[nm] = v
+    return out
+
+
+def assume(ctx, f, **facts) -> dict:
+    """Evaluation environment: the stated assumption on top of the module-level constants visible in `f`."""
+    env = module_consts(ctx, f)
+    env.update(facts)
+    return env
+
+
+def decide_silent(cfg, starts, is_goal: Callable, avoid: Callable, env: dict, names, edge_ok: Callable = None):
+    """Can a goal be reached from `starts` without passing an `avoid` node, under the assumption `env` on `names`?
+    ("no", None): no compatible path.  ("yes", path): a path exists whatever the outcome of the branch tests that mention the
+    assumed names but cannot be evaluated (both outcomes continue to a goal) - a positive reason for a violation.
+    ("undecided", test): a path exists only for one outcome of such a test - the rule must not report."""
+    loose = find_path(cfg, starts, is_goal, avoid=avoid, env=env, edge_ok=edge_ok)
+    if loose is None:
+        return "no", None
+    names = set(names)
+    memo: Dict[int, Optional[list]] = {}
+    onstack: set = set()
+
+    def opaque(n):
+        return isinstance(n, (ast.If, ast.While)) and any(isinstance(x, ast.Name) and x.id in names for x in ast.walk(n.test)) \
+            and _truth(ev(n.test, env)) is UNK
+
+    def go(n):
+        if is_goal(n):
+            return [n]
+        if avoid is not None and avoid(n):
+            return None
+        if id(n) in memo:
+            return memo[id(n)]
+        if id(n) in onstack:
+            return None
+        onstack.add(id(n))
+        allowed = _allowed_labels(n, env)
+        succs = [s_ for s_ in cfg.g.successors(n)
+                 if (allowed is None or edge_kind(cfg, n, s_) in allowed) and (edge_ok is None or edge_ok(n, s_, cfg.g[n][s_]["labels"]))]
+        res = None
+        if opaque(n):
+            subs = [go(s_) for s_ in succs if edge_kind(cfg, n, s_) in ("true", "false")]
+            if subs and all(p is not None for p in subs):
+                res = [n] + subs[0]
+        else:
+            for s_ in succs:
+                p = go(s_)
+                if p is not None:
+                    res = [n] + p
+                    break
+        onstack.discard(id(n))
+        memo[id(n)] = res
+        return res
+
+    import sys
+    lim = sys.getrecursionlimit()
+    sys.setrecursionlimit(max(lim, 20000))
+    try:
+        for s0 in starts:
+            p = go(s0)
+            if p is not None:
+                return "yes", p
+    finally:
+        sys.setrecursionlimit(lim)
+    for n in loose:
+        if opaque(n):
+            return "undecided", n
+    return "undecided", None
+
+
 def branch_returns(ctx, f, node, label):
     """Witness path from the `label` branch of `node` to the normal exit, or None if that branch can only raise."""
     cfg = ctx.cfg(f)
@@ -403,6 +491,28 @@ def _context_call_sites(ctx, f, contexts, depth=0, _seen=None) -> list:
             out.append((g, c))
         else:
             out += [(h, c2) for h, c2 in _context_call_sites(ctx, g, contexts, depth + 1, _seen)]
+    return out
+
+
+def _only_called_from(ctx, f, contexts, depth=0) -> set:
+    """Qualnames of the functions in `contexts` that are the only (transitive, through private helpers) callers of the private
+    helper `f`; empty when `f` is public, has no caller, or is also called from elsewhere."""
+    if not _is_private(f) or depth > 3:
+        return set()
+    sites = ctx.cg.call_sites_of(f)
+    if not sites:
+        return set()
+    out = set()
+    for g, _ in sites:
+        if g == f:
+            continue
+        if g.qualname in contexts:
+            out.add(g.qualname)
+            continue
+        sub = _only_called_from(ctx, g, contexts, depth + 1)
+        if not sub:
+            return set()
+        out |= sub
     return out
 
 
@@ -530,6 +640,23 @@ def _membership_accept_label(ctx, cls, test: ast.AST, f, pname: str, sup_params=
     return "true" if lab else "false"
 
 
+def _shortcut_label(ctx, f, test: ast.AST, pname: str):
+    """(constant, label of the edge on which the constant is a substring of the solver name) for a test `[not] 'c' [not] in solver`
+    (possibly bound to a local first), else None."""
+    e, neg = _strip_not(test)
+    if isinstance(e, ast.Name) and getattr(e, "_parent", None) is not None:
+        v = single_def_value(ctx, f, e)
+        if v is not None:
+            e2, n2 = _strip_not(v)
+            e, neg = e2, neg != n2
+    if isinstance(e, ast.Compare) and len(e.ops) == 1 and isinstance(e.ops[0], (ast.In, ast.NotIn)) \
+            and isinstance(e.left, ast.Constant) and isinstance(e.left.value, str) \
+            and isinstance(e.comparators[0], ast.Name) and e.comparators[0].id == pname:
+        holds_on_true = isinstance(e.ops[0], ast.In) != neg
+        return e.left.value, ("true" if holds_on_true else "false")
+    return None
+
+
 def _unrecognised_supported_reads(f, seen: set) -> List[ast.AST]:
     """Reads of SUPPORTED_SOLVERS in `f` that are neither a recognised membership container nor message formatting."""
     def formatting(n):
@@ -570,8 +697,8 @@ def _validator_sound(ctx, rid, cls, vf, depth=0, pname: str = "solver", sup_para
                 if lab is not None and lab == kind:
                     accepted = True
                     break
-                key = (cls.name, ast.unparse(a.test))
-                if key in VALIDATOR_SHORTCUTS and kind == "true" and isinstance(b, ast.Return):
+                sc = _shortcut_label(ctx, vf, a.test, pname)
+                if sc is not None and (cls.name, sc[0]) in VALIDATOR_SHORTCUTS and kind == sc[1]:
                     accepted = True
                     break
             if isinstance(a, ast.stmt) and not isinstance(a, (ast.If, ast.For, ast.While, ast.Try, ast.With)):
@@ -713,8 +840,8 @@ def _check_solver_uses(rid, f, pname):
             continue
         ok = False
         for a in ancestors(n):
-            if isinstance(a, (ast.If, ast.While)) and contains(a.test, n):
-                ok = True
+            if isinstance(a, (ast.If, ast.While, ast.IfExp)) and contains(a.test, n):
+                ok = True      # a branch test; a conditional expression selecting between values is a branch as well
                 break
             if isinstance(a, ast.Call) and (_self_call(a, f, "_validate_solver") or _super_call(a, "_solve") or _super_call(a, "_validate_solver")):
                 ok = True
@@ -777,6 +904,25 @@ def _signature(ctx, rid, cls, f, name, depth=0):
                 and isinstance(n.value, (ast.BoolOp, ast.Compare)):
             t = _truth(ev(n.value, env))
             sig.add((f.qualname + ":" + ast.unparse(n.value), "unk" if t is UNK else t))
+    # decisions taken inside conditional expressions (`impl = self._solve_a if solver == 'a' else self._solve_b`)
+    for n in reach:
+        if not isinstance(n, ast.stmt):
+            continue
+        for x in header_nodes(n):
+            if not (isinstance(x, ast.IfExp) and any(isinstance(y, ast.Name) and y.id == pname for y in ast.walk(x.test))):
+                continue
+            evaluated, child = True, x
+            for a in ancestors(x):
+                if a is n:
+                    break
+                if isinstance(a, ast.IfExp) and not contains(a.test, child):
+                    t = _truth(ev(a.test, env))
+                    if t is not UNK and contains(a.body if not t else a.orelse, child):
+                        evaluated = False      # sits in the arm that is not selected for this name
+                        break
+            if evaluated:
+                t = _truth(ev(x.test, env))
+                sig.add((f.qualname + ":" + ast.unparse(x.test), "unk" if t is UNK else t))
     for st, c in impl:
         if id(st) in reach_ids:
             hits.add(f.qualname + ":" + ast.unparse(c.func))
@@ -906,44 +1052,6 @@ def _root_expr(ctx, f, e, depth=0):
     return e
 
 
-def _correlated_guard(ctx, f, cfg, G, S, others=()) -> bool:
-    """The guard G refuses under a condition c (an unmodified parameter): G sits at the top of the body of `if c:` or its test is
-    `c and not <flag>`; S sits under another `if c:` (or in the true arm of `... if c else ...`) that the guard dominates."""
-    if others:
-        if not (len(others) == 1 and isinstance(others[0], ast.Name)):
-            return False
-        c, P = others[0].id, G
-    else:
-        P = parent(G)
-        if not (isinstance(P, ast.If) and G in P.body and isinstance(P.test, ast.Name)):
-            return False
-        c = P.test.id
-        for sib in P.body[:P.body.index(G)]:
-            if any(isinstance(n, (ast.Return, ast.Raise, ast.Break, ast.Continue, ast.Try)) for n in ast.walk(sib)):
-                return False
-    if c not in f.params or _stores(f, c):
-        return False
-    if not cfg.dominates(P, S):
-        return False
-    for a in ancestors(S):
-        if isinstance(a, ast.If) and isinstance(a.test, ast.Name) and a.test.id == c and any(contains(b, S) for b in a.body):
-            return True
-    # conditional-expression form: every csr_matrix template of S sits in the true arm of `<...> if c else <...>`
-    consts = [n for n in ast.walk(S) if isinstance(n, ast.Constant) and isinstance(n.value, str) and "csr_matrix" in n.value]
-    if consts:
-        def under_true_arm(n):
-            p_ = parent(n)
-            child = n
-            while p_ is not None and p_ is not S:
-                if isinstance(p_, ast.IfExp) and isinstance(p_.test, ast.Name) and p_.test.id == c and contains(p_.body, n):
-                    return True
-                child, p_ = p_, parent(p_)
-            return isinstance(S, ast.IfExp)
-        if all(under_true_arm(n) for n in consts):
-            return True
-    return False
-
-
 def _is_backend_expr(ctx, f, e, depth=0) -> bool:
     """Does `e` denote the backend object?  An attribute / local called `backend`, something typed as a BaseBackend, or a
     parameter that receives such a value at every call site."""
@@ -1061,6 +1169,128 @@ def _constructed_class(ctx, rid, f, recv, marker, chain, depth=0):
     raise AnalysisError(f"{rid}: {f.qual}: the object whose `{marker}` is tested is not a network constructed here ({ast.unparse(root)})")
 
 
+def _names_true_at(f, st, inner=()) -> set:
+    """Unmodified parameters of `f` that are necessarily true when `st` executes (and, for the expressions `inner` inside `st`, when
+    they are evaluated): `if c:` body, `if not c:` else-branch, `x if c else y` arms."""
+    def cond(test, in_true_arm):
+        e, neg = _strip_not(test)
+        if isinstance(e, ast.Name) and e.id in f.params and not _stores(f, e.id) and (in_true_arm != neg):
+            return e.id
+        if isinstance(e, ast.BoolOp) and isinstance(e.op, ast.And) and in_true_arm and not neg:
+            return [v.id for v in e.values if isinstance(v, ast.Name) and v.id in f.params and not _stores(f, v.id)]
+        return None
+
+    def up(node):
+        out = set()
+        child = node
+        for a in ancestors(node):
+            if isinstance(a, (ast.FunctionDef, ast.AsyncFunctionDef, ast.Lambda)):
+                break
+            if isinstance(a, ast.If) and not contains(a.test, child):
+                c = cond(a.test, any(contains(b, child) or b is child for b in a.body))
+            elif isinstance(a, ast.IfExp) and not contains(a.test, child) and a.test is not child:
+                c = cond(a.test, contains(a.body, child) or a.body is child)
+            else:
+                c = None
+            if c:
+                out |= set(c) if isinstance(c, list) else {c}
+        return out
+    sets = [up(n) for n in inner] or [up(st)]
+    res = sets[0]
+    for x in sets[1:]:
+        res &= x
+    return res
+
+
+def _guard_covers(ctx, fv, st, gso, true_names) -> bool:
+    """Under the assumption that the names in `true_names` are true, every path from the entry of `fv` to `st` passes one of the
+    flag tests `gso` = [(if statement, other conditions of its refusal)] whose other conditions hold under that assumption."""
+    cfg = ctx.cfg(fv)
+    env = {c: True for c in true_names}
+    active = [g for g, others in gso if all(_truth(ev(o, env)) is True for o in others)]
+    if not active:
+        return False
+    return find_path(cfg, [cfg.ENTRY], lambda n: n is st, avoid=lambda n: any(n is g for g in active), env=env) is None
+
+
+def _view_guards(ctx, rid, fv, flag) -> list:
+    """[(if statement, other conditions)] for the tests of `flag` in the (inlined) function view `fv`."""
+    out = []
+    cfg = ctx.cfg(fv)
+    for n in walk_shallow(fv.node):
+        recv = None
+        if isinstance(n, ast.Call) and isinstance(n.func, ast.Name) and n.func.id == "getattr" and len(n.args) >= 2 \
+                and isinstance(n.args[1], ast.Constant) and n.args[1].value == flag:
+            recv = n.args[0]
+        elif isinstance(n, ast.Attribute) and n.attr == flag and isinstance(n.ctx, ast.Load):
+            recv = n.value
+        if recv is None:
+            continue
+        for st, tnode in _flag_tests(ctx, rid, fv, cfg, n, flag):
+            fail_label, others = _flag_conjunct(rid, fv, st, tnode, flag)
+            out.append((st, others))
+    return out
+
+
+def _callers_guard(ctx, rid, h, true_names, flag, depth=0):
+    """The private helper `h` emits the feature (when its parameters `true_names` are true) without testing the flag itself: is every
+    call of `h` covered by a flag test in the caller (seen with the caller's other private helpers spliced in)?
+    -> (covered, description of where)."""
+    from engine.inline import inlined
+    sites = ctx.cg.call_sites_of(h) if _is_private(h) else []
+    if not sites or depth > 1:
+        return False, ""
+    wheres = []
+    for g in sorted({g for g, _ in sites}, key=lambda x: x.qual):
+        gv = inlined(ctx, g, keep=(h.node.name,))
+        if not getattr(gv, "inlined_helpers", None):
+            gv = g
+        calls = _calls_to(ctx, gv, h)
+        if not calls:
+            raise AnalysisError(f"{rid}: {g.qual}: the call of {h.qualname} was not found again after splicing the private helpers")
+        gso = _view_guards(ctx, rid, gv, flag)
+        gcfg = ctx.cfg(gv)
+        for c in calls:
+            cs = stmt_of(gcfg, c)
+            bnd = _bind_args(h, c)
+            need, never = set(), False
+            for p_ in true_names:
+                a = bnd.get(p_)
+                if isinstance(a, ast.Constant) and not a.value:
+                    never = True       # this call never takes the emitting branch
+                elif isinstance(a, ast.Name) and a.id in gv.params and not _stores(gv, a.id):
+                    need.add(a.id)
+                elif a is None:
+                    dflt = _param_default(h, p_)
+                    if isinstance(dflt, ast.Constant) and not dflt.value:
+                        never = True
+            if never:
+                continue
+            tn = _names_true_at(gv, cs, [c]) | need
+            if gso and _guard_covers(ctx, gv, cs, gso, tn):
+                continue
+            if not gso:
+                ok2, w2 = _callers_guard(ctx, rid, g, tn, flag, depth + 1)
+                if ok2:
+                    wheres.append(w2)
+                    continue
+            return False, ""
+        wheres.append(g.qualname)
+    return True, ", ".join(sorted(set(wheres)))
+
+
+def _param_default(f, pname: str):
+    a = f.node.args
+    pos = a.posonlyargs + a.args
+    for arg, d in zip(pos[len(pos) - len(a.defaults):], a.defaults):
+        if arg.arg == pname:
+            return d
+    for arg, d in zip(a.kwonlyargs, a.kw_defaults):
+        if arg.arg == pname:
+            return d
+    return None
+
+
 def r2_capability_flags(ctx, rid):
     base = ctx.repo.get_class(S.BASE_REL, "BaseBackend")
     flags = sorted(a for a in base.attrs if a.startswith("SUPPORTS_"))
@@ -1093,6 +1323,7 @@ def r2_capability_flags(ctx, rid):
                     ctx.violation(rid, f, st, f"the branch taken when the backend declares {flag} = False reaches the normal exit "
                                               f"({cfg.path_str(w)}): the unsupported feature is compiled instead of refused", facts)
     # ---- sparse Jacobian: the csr_matrix emission is covered by the guard
+    SP = "SUPPORTS_SPARSE_JACOBIAN"
     n_feat = 0
     for f in ctx.repo.all_functions():
         if not any("csr_matrix" in (n.value if isinstance(n, ast.Constant) and isinstance(n.value, str) else "") for n in ast.walk(f.node)):
@@ -1101,14 +1332,22 @@ def r2_capability_flags(ctx, rid):
         feats = [st for st in cfg.stmts() if not isinstance(st, ast.Raise) and any("csr_matrix" in s for s in _strings_of(st))]
         if not feats:
             continue
-        gso = [(g, others) for (gf, g, others) in guards.get("SUPPORTS_SPARSE_JACOBIAN", []) if gf == f]
+        gso = [(g, others) for (gf, g, others) in guards.get(SP, []) if gf == f]
         gs = [g for g, _ in gso]
         for st in feats:
             n_feat += 1
-            okg = any((not others and cfg.dominates(g, st)) or _correlated_guard(ctx, f, cfg, g, st, others) for g, others in gso)
+            consts = [n for n in ast.walk(st) if isinstance(n, ast.Constant) and isinstance(n.value, str) and "csr_matrix" in n.value]
+            true_names = _names_true_at(f, st, consts)
+            facts = {"guards": [norm(g) for g in gs], "emitted_when": sorted(true_names)}
+            okg = _guard_covers(ctx, f, st, gso, true_names)
+            where = ""
+            if not okg and not gso:
+                # no guard in this function: the emission may have been extracted into a private helper whose callers guard it
+                okg, where = _callers_guard(ctx, rid, f, true_names, SP)
+                facts["guarded_in"] = where
             if okg:
-                ctx.ok(rid, f, st, "csr_matrix is emitted only after the SUPPORTS_SPARSE_JACOBIAN test has been passed",
-                       {"guards": [norm(g) for g in gs]})
+                ctx.ok(rid, f, st, "csr_matrix is emitted only after the SUPPORTS_SPARSE_JACOBIAN test has been passed" + (f" (in {where})" if where else ""),
+                       facts)
             else:
                 ctx.violation(rid, f, st, "this statement emits `csr_matrix` code but is not covered by a SUPPORTS_SPARSE_JACOBIAN test whose "
                                           "failing branch raises: sparse=True on a backend that cannot build csr matrices is compiled anyway",
@@ -1315,8 +1554,11 @@ def r3_backend_args(ctx, rid):
         if _stores(val_f, nm):
             raise AnalysisError(f"{rid}: {val_f.qual} re-binds `{nm}`")
     cfg = ctx.cfg(val_f)
-    env = {"vectorize": True, "backend": "fortran"}
-    w = find_path(cfg, [cfg.ENTRY], lambda n: n is cfg.EXIT, env=env, edge_ok=_raise_edge_ok(ctx, val_f))
+    env = assume(ctx, val_f, vectorize=True, backend="fortran")
+    verdict, w = decide_silent(cfg, [cfg.ENTRY], lambda n: n is cfg.EXIT, None, env, ("vectorize", "backend"), _raise_edge_ok(ctx, val_f))
+    if verdict == "undecided":
+        raise AnalysisError(f"{rid}: {val_f.qual}: cannot evaluate `{ast.unparse(w.test) if w is not None else '?'}` for vectorize=True, "
+                            f"backend='fortran' (unrecognised form); cannot decide whether the combination is refused")
     if w is None:
         ctx.ok(rid, val_f, val_f.node, "with vectorize=True and backend='fortran' every path raises", label="fortran x vectorize refused")
     else:
@@ -1414,10 +1656,13 @@ def _r4_follow(ctx, rid, f, st, r, must_raise, depth=0):
 
     def goal(x):
         return x is cfg.EXIT or (isinstance(x, (ast.stmt, ast.ExceptHandler)) and r in stmt_defs(x))
-    env = {r: Len(0)}
+    env = assume(ctx, f, **{r: Len(0)})
     eok = _raise_edge_ok(ctx, f)
     starts = list(cfg.g.successors(st))
-    w = find_path(cfg, starts, goal, avoid=lambda x: reporter(x) or id(x) in hands_back, env=env, edge_ok=eok)
+    verdict, w = decide_silent(cfg, starts, goal, lambda x: reporter(x) or id(x) in hands_back, env, (r,), eok)
+    if verdict == "undecided":
+        raise AnalysisError(f"{rid}: {f.qual}: cannot evaluate `{ast.unparse(w.test) if w is not None else '?'}` for an empty `{r}` "
+                            f"(unrecognised form); cannot decide whether an empty selection is reported")
     if w is not None:
         end = "the next definition of the result (next loop iteration)" if w[-1] is not cfg.EXIT else "the normal exit"
         return (f, [st] + w, f"reaches {end}")
@@ -1434,8 +1679,22 @@ def _r4_follow(ctx, rid, f, st, r, must_raise, depth=0):
 def r4_empty_selection_reported(ctx, rid):
     gn = ctx.repo.get_func(CIRCUIT_T, "CircuitTemplate.get_nodes")
     n = 0
+    covered: set = set()
+    # the implementation of get_nodes: the method itself plus the private helpers only it (transitively) calls; their recursive
+    # calls descend the circuit hierarchy and are not look-ups of a user path
+    impl = {gn}
+    grew = True
+    while grew:
+        grew = False
+        for m in list(impl):
+            for g in ctx.cg.callees(m):
+                if g not in impl and _is_private(g) and g.cls is gn.cls:
+                    callers = {h for h, _ in ctx.cg.call_sites_of(g)}
+                    if callers and callers <= impl:
+                        impl.add(g)
+                        grew = True
     for f, call in sorted(ctx.cg.call_sites_of(gn), key=lambda fc: (fc[0].module.rel, fc[1].lineno)):
-        if f == gn:
+        if f in impl:
             continue
         ident = _arg(call, 0, "node_identifier")
         if ident is None:
@@ -1449,6 +1708,11 @@ def r4_empty_selection_reported(ctx, rid):
             continue
         if f.qualname in R4_QUERIES:
             ctx.info(rid, f, stmt_of(ctx.cfg(f), call), f"query: {R4_QUERIES[f.qualname]}")
+            continue
+        qs = _only_called_from(ctx, f, R4_QUERIES)
+        if qs:
+            ctx.info(rid, f, stmt_of(ctx.cfg(f), call), f"look-up extracted from the quer{'y' if len(qs) == 1 else 'ies'} {', '.join(sorted(qs))}: "
+                                                        f"{R4_QUERIES[sorted(qs)[0]]}")
             continue
         cfg = ctx.cfg(f)
         st = stmt_of(cfg, call)
@@ -1473,6 +1737,7 @@ def r4_empty_selection_reported(ctx, rid):
             seen_labels[(g, norm(gst))] = k + 1
             places.append((g, gst, None if k == 0 else f"{norm(gst)} #{k + 1}"))
         for g, gst, label in places:
+            covered.add(g.qualname)
             if wit is None:
                 ctx.ok(rid, g, gst, f"when `{r}` is empty every continuation passes a {'raise' if must_raise else 'warn/raise'}", facts, label=label)
             else:
@@ -1483,6 +1748,10 @@ def r4_empty_selection_reported(ctx, rid):
                                            f"{'requested output is silently omitted' if must_raise else 'input / parameter update is silently dropped'}",
                               dict(facts, witness=ps), label=label)
     ctx.require(n >= 1, f"{rid}: no get_nodes look-up of a user path found")
+    # every must-raise function still performs a look-up (itself or through an extracted helper); the two branches of
+    # get_variable_positions may legitimately be merged into one loop, so the numeric floor counts functions, not sites
+    for q in R4_MUST_RAISE:
+        ctx.require(q in covered, f"{rid}: no node look-up of a user path found in {q} (anchor vanished)")
 
 
 # ------------------------------------------------------------------------------------------------
@@ -1632,8 +1901,26 @@ def _target_ir_call(ctx, rid, f):
     return calls[0]
 
 
+def _operator_apply_view(ctx):
+    """(OperatorTemplate.apply, the view to analyse): the method itself, or - when parts of it were extracted into private helpers -
+    the synthetic function with those helpers spliced back in.  Obligations are reported against the original method."""
+    f0 = ctx.repo.get_func(OP_T, "OperatorTemplate.apply")
+    from engine.inline import inlined
+    fv = inlined(ctx, f0)
+    if not getattr(fv, "inlined_helpers", None):
+        fv = f0
+    return f0, fv
+
+
+def _calls_to(ctx, fv, target) -> List[ast.Call]:
+    """Calls of `target` in the (possibly inlined) function view `fv`."""
+    if fv in ctx.cg.calls:
+        return [c for c, targets, how in ctx.cg.calls.get(fv, []) if target in targets]
+    return [c for c in walk_shallow(fv.node) if isinstance(c, ast.Call) and target in ctx.cg.resolve_call(fv, c)[0]]
+
+
 def _r6_check_vname(ctx, rid):
-    f = ctx.repo.get_func(OP_T, "OperatorTemplate.apply")
+    f0, f = _operator_apply_view(ctx)
     chk = ctx.repo.get_func(OP_T, "check_vname")
     cfg = ctx.cfg(f)
     tcall = _target_ir_call(ctx, rid, f)
@@ -1644,10 +1931,7 @@ def _r6_check_vname(ctx, rid):
                and isinstance(st.value.func.value, ast.Name) and st.value.func.value.id == v.id]
     if not appends:
         raise AnalysisError(f"{rid}: {f.qual}: `{v.id}` is not filled by append (unrecognised form)")
-    checks = []
-    for c, targets, how in ctx.cg.calls.get(f, []):
-        if chk in targets:
-            checks.append(c)
+    checks = _calls_to(ctx, f, chk)
     for ap in appends:
         item = ap.value.args[0] if ap.value.args else None
         if not (isinstance(item, ast.Tuple) and item.elts and isinstance(item.elts[0], ast.Name)):
@@ -1667,9 +1951,9 @@ def _r6_check_vname(ctx, rid):
         if rebinds:
             raise AnalysisError(f"{rid}: {f.qual}: `{vn}` is re-bound inside the loop")
         if good:
-            ctx.ok(rid, f, ap, f"every variable handed to the OperatorIR has passed check_vname({vn}, ...) in the same iteration")
+            ctx.ok(rid, f0, ap, f"every variable handed to the OperatorIR has passed check_vname({vn}, ...) in the same iteration")
         else:
-            ctx.violation(rid, f, ap, f"a variable is appended to the list handed to the OperatorIR without a dominating check_vname({vn}, ...): "
+            ctx.violation(rid, f0, ap, f"a variable is appended to the list handed to the OperatorIR without a dominating check_vname({vn}, ...): "
                                       f"a reserved name (y, dy, pi, *_buffer ...) is compiled and silently collides with PyRates' own variables")
     # the reserved-name tables are enforced by a raise
     ccfg = ctx.cfg(chk)
@@ -1698,7 +1982,7 @@ def _r6_check_vname(ctx, rid):
         return None
     for tname, tb in tables:
         uses = [n for n in walk_shallow(chk.node) if isinstance(n, ast.Name) and n.id == tname and isinstance(n.ctx, ast.Load)]
-        enforced, witness = False, None
+        enforced, witness, recognised_use = False, None, False
         for u in uses:
             st = stmt_of(ccfg, u)
             tests = []
@@ -1707,6 +1991,31 @@ def _r6_check_vname(ctx, rid):
             elif isinstance(st, ast.For) and st.iter is u and isinstance(st.target, ast.Name):
                 d = st.target.id
                 tests = [x for x in ast.walk(st) if isinstance(x, ast.If) and any(isinstance(y, ast.Name) and y.id == d for y in ast.walk(x.test))]
+            if not tests and isinstance(st, ast.Assign) and len(st.targets) == 1 and isinstance(st.targets[0], ast.Name) \
+                    and isinstance(st.value, ast.Call) and isinstance(st.value.func, ast.Name) and st.value.func.id in ("next", "any") \
+                    and st.value.args and isinstance(st.value.args[0], (ast.GeneratorExp, ast.ListComp)) \
+                    and len(st.value.args[0].generators) == 1 and st.value.args[0].generators[0].iter is u:
+                # first match / any match bound to a local: `m = next((p for p in table if p in v), None)` ... `if m is not None: raise`
+                gen, kind = st.value.args[0], st.value.func.id
+                conds = gen.generators[0].ifs if kind == "next" else [gen.elt]
+                dflt_ok = kind == "any" or (len(st.value.args) == 2 and isinstance(st.value.args[1], ast.Constant) and st.value.args[1].value is None)
+                if len(conds) == 1 and membership(conds[0]) is True and dflt_ok and (kind == "any" or not gen.generators[0].ifs[1:]) \
+                        and any(isinstance(y, ast.Name) and y.id == vparam for y in ast.walk(conds[0])) \
+                        and len(_stores(chk, st.targets[0].id)) == 1:
+                    m = st.targets[0].id
+                    recognised_use = True
+                    for t in [x for x in ccfg.stmts() if isinstance(x, ast.If) and any(isinstance(y, ast.Name) and y.id == m for y in ast.walk(x.test))]:
+                        tv = _truth(ev(t.test, {m: True if kind == "any" else "match"}))
+                        if tv is UNK:
+                            raise AnalysisError(f"{rid}: {chk.qual}: unrecognised reserved-name test `{ast.unparse(t.test)}`")
+                        w = branch_returns(ctx, chk, t, "true" if tv else "false")
+                        if w is None:
+                            enforced = True
+                        else:
+                            witness = ccfg.path_str(w)
+                    continue
+            if tests:
+                recognised_use = True
             for t in tests:
                 e, neg = _strip_not(t.test)
                 pol = membership(e)
@@ -1725,6 +2034,9 @@ def _r6_check_vname(ctx, rid):
                     witness = ccfg.path_str(w)
         if enforced and witness is None:
             ctx.ok(rid, chk, tb, f"a name matching `{tname}` can only raise", label=f"reserved-name table {tname} enforced")
+        elif uses and not recognised_use and witness is None:
+            raise AnalysisError(f"{rid}: {chk.qual}: the reserved-name table `{tname}` is consulted in a form that is not recognised "
+                                f"(`{norm(stmt_of(ccfg, uses[0]), 80)}`)")
         else:
             ctx.violation(rid, chk, tb, f"a variable name matching the reserved table `{tname}` does not lead to a raise"
                                         f"{' (' + witness + ')' if witness else ''}: the reserved name is accepted",
@@ -1732,7 +2044,7 @@ def _r6_check_vname(ctx, rid):
 
 
 def _r6_single_output(ctx, rid):
-    f = ctx.repo.get_func(OP_T, "OperatorTemplate.apply")
+    f0, f = _operator_apply_view(ctx)
     cfg = ctx.cfg(f)
     tcall = _target_ir_call(ctx, rid, f)
     o = _arg(tcall, 99, "output")
@@ -1787,9 +2099,9 @@ def _r6_single_output(ctx, rid):
                 raise AnalysisError(f"{rid}: {f.qual}: `{norm(a)}` is not reachable within one iteration while `{o.id}` is None (unrecognised form)")
         tests = [n for n in (first or []) if isinstance(n, (ast.If, ast.While)) and any(isinstance(x, ast.Name) and x.id == o.id for x in ast.walk(n.test))]
         if w is None:
-            ctx.ok(rid, f, a, "a second output declaration can only raise", {"guard": norm(tests[0]) if tests else "helper"})
+            ctx.ok(rid, f0, a, "a second output declaration can only raise", {"guard": norm(tests[0]) if tests else "helper"})
         elif not any(isinstance(n, (ast.If, ast.While)) and any(isinstance(x, ast.Name) and x.id == o.id for x in ast.walk(n.test)) for n in w):
-            ctx.violation(rid, f, a, f"`{norm(a)}` is not guarded by a test that `{o.id}` is still None: a second output declaration silently "
+            ctx.violation(rid, f0, a, f"`{norm(a)}` is not guarded by a test that `{o.id}` is still None: a second output declaration silently "
                                      f"replaces the first instead of raising", {"witness": cfg.path_str(w)})
         else:
             undecided = [n for n in w if isinstance(n, (ast.If, ast.While)) and any(isinstance(x, ast.Name) and x.id == o.id for x in ast.walk(n.test))
@@ -1797,7 +2109,7 @@ def _r6_single_output(ctx, rid):
             if undecided:
                 raise AnalysisError(f"{rid}: {f.qual}: cannot evaluate the output guard `{ast.unparse(undecided[0].test)}` for an output that is "
                                     f"already set (unrecognised form)")
-            ctx.violation(rid, f, a, f"when a second variable is declared as output the loop reaches `{norm(a)}` ({cfg.path_str(w)}) instead of "
+            ctx.violation(rid, f0, a, f"when a second variable is declared as output the loop reaches `{norm(a)}` ({cfg.path_str(w)}) instead of "
                                      f"raising: more than one output per operator is accepted silently", {"witness": cfg.path_str(w)})
 
 
@@ -1866,7 +2178,11 @@ def _r6_edge_output(ctx, rid):
     tgt = st.targets[0] if isinstance(st, ast.Assign) else st.target
     if not isinstance(tgt, ast.Name) or _stores(f, tgt.id) != [tgt]:
         raise AnalysisError(f"{rid}: {f.qual}: unrecognised binding of the output-operator list")
-    w = find_path(cfg, list(cfg.g.successors(st)), lambda n: n is cfg.EXIT, env={tgt.id: Len(2)}, edge_ok=_raise_edge_ok(ctx, f))
+    env = assume(ctx, f, **{tgt.id: Len(2)})
+    verdict, w = decide_silent(cfg, list(cfg.g.successors(st)), lambda n: n is cfg.EXIT, None, env, (tgt.id,), _raise_edge_ok(ctx, f))
+    if verdict == "undecided":
+        raise AnalysisError(f"{rid}: {f.qual}: cannot evaluate `{ast.unparse(w.test) if w is not None else '?'}` for two output "
+                            f"operators (unrecognised form)")
     if w is None:
         ctx.ok(rid, f, st, "with two output operators every path raises", label="more than one output operator refused")
     else:
@@ -1916,7 +2232,7 @@ RULES = [
     ("C20-R1", r1_solver_validation, 20),
     ("C20-R2", r2_capability_flags, 8),
     ("C20-R3", r3_backend_args, 4),
-    ("C20-R4", r4_empty_selection_reported, 6),
+    ("C20-R4", r4_empty_selection_reported, 5),
     ("C20-R5", r5_raised_not_built, 8),
     ("C20-R6", r6_remaining_guards, 7),
     ("C20-R7", r7_history_fed_or_refused, 3),
